@@ -94,6 +94,7 @@ type built struct {
 	linear    map[string]bool // linearizable scenarios: admissible result vectors
 	stride    int
 	points    int
+	nondet    string
 }
 
 type scenario struct {
@@ -213,6 +214,12 @@ func (s *scenario) get() *built {
 		b.stride = e.RawH/300 + 1
 		_, e, _ = runThreads(b, func(n int, re bool) int { return 0 })
 		b.points = e.Points
+		// determinism: the default schedule executed twice on fresh objects must give identical observations
+		r1, _, _ := runThreads(b, func(n int, re bool) int { return 0 })
+		r2, e2, _ := runThreads(b, func(n int, re bool) int { return 0 })
+		if fmt.Sprint(r1) != fmt.Sprint(r2) || e2.Points != b.points {
+			b.nondet = fmt.Sprintf("two executions of the default schedule differ: %v vs %v (points %d vs %d)", r1, r2, b.points, e2.Points)
+		}
 		if os.Getenv("VERIF_C18_DEBUG") != "" {
 			fmt.Fprintf(os.Stderr, "[C18] %s: points=%d rawHeavy=%d stride=%d\n", s.name, e.Points, e.RawH, b.stride)
 		}
@@ -230,6 +237,9 @@ func trunc(s string) string {
 
 func (s *scenario) body(x *h.X) {
 	b := s.get()
+	if b.nondet != "" {
+		x.Fail("nondeterministic-default-schedule", "%s: %s (state outside the shared object survives between executions)", s.name, b.nondet)
+	}
 	var decisions int
 	res, e, sh := runThreads(b, func(n int, runningEnabled bool) int {
 		decisions++
